@@ -143,7 +143,8 @@ class Client:
 
 
 class FullSim:
-    def __init__(self, sim, deviations=0, with_sessions=True, max_steps=600, split_jobs=False, real_odb=False):
+    def __init__(self, sim, deviations=0, with_sessions=True, max_steps=600, split_jobs=False, real_odb=False,
+                 chunk_size=None):
         self.sim = sim
         self.sched = gates.Scheduler(deviations, max_steps)
         self.daemon = GDaemon(self.sched)
@@ -154,6 +155,7 @@ class FullSim:
         self.prepared = {}         # placeholder raw -> RTx
         self.split_jobs = split_jobs
         self.real_odb = real_odb      # keep the real OnDiskBlock (prefetcher, block files, parser)
+        self.chunk_size = chunk_size
         self.stopped = False
 
     # -- construction --------------------------------------------------------------------------
@@ -181,6 +183,9 @@ class FullSim:
                 bpmod._verif_real_odb = bpmod.OnDiskBlock
             odb = self.odb = bpmod.OnDiskBlock = bpmod._verif_real_odb
             odb.blocks, odb.tasks, odb.log_block, odb.daemon, odb.state = {}, {}, False, None, None
+            # the read chunk (25 MB in the code, which is parametric in it) can be scaled down so that ordinary test
+            # blocks span several chunks
+            odb.chunk_size = getattr(self, 'chunk_size', None) or 25_000_000
             import aiorpcx
             bpmod.spawn = aiorpcx.spawn
         else:
